@@ -5,6 +5,7 @@ import (
 	"flag"
 	"fmt"
 	"os"
+	"sort"
 	"strconv"
 	"strings"
 	"time"
@@ -72,6 +73,23 @@ func cmdRun(args []string) int {
 		fmt.Printf("%s: paths=%d completed=%d vacuous=%d inconclusive=%d violations=%d decisions=%d forced=%d instrs=%d queries=%d (sat %d unsat %d unknown %d) solver=%v wall=%v\n",
 			res.Harness, res.Paths, res.Completed, res.Vacuous, res.Inconclusive, len(res.Violations), res.Decisions, res.Forced, res.Instrs,
 			res.Solver.Queries, res.Solver.Sat, res.Solver.Unsat, res.Solver.Unknown, res.Solver.Time.Round(time.Millisecond), res.Wall.Round(time.Millisecond))
+		if len(res.ForkSites) > 0 {
+			type kv struct {
+				k string
+				v int
+			}
+			var l []kv
+			for k, v := range res.ForkSites {
+				l = append(l, kv{k, v})
+			}
+			sort.Slice(l, func(i, j int) bool { return l[i].v > l[j].v })
+			for i, e := range l {
+				if i >= 12 {
+					break
+				}
+				fmt.Printf("  FORKS %6d %s\n", e.v, e.k)
+			}
+		}
 		for _, m := range res.InconclMsgs {
 			fmt.Println("  INCONCLUSIVE:", m)
 		}
